@@ -44,6 +44,13 @@ const (
 
 var blkName = [nBlk]string{"nil", "A", "B", "A'", "A^", "A+256", "A+255", "A+64k", "A+2^24", "A+2^31"}
 
+// lastByte: h with its last byte replaced - B and A^ differ from A in the LAST byte of one hash only, so a key, an
+// equality or a fingerprint that looks at a prefix of a hash (BlockID.String() prints 6 bytes) collapses them onto A
+func lastByte(h [32]byte, b byte) [32]byte {
+	h[31] = b
+	return h
+}
+
 func fill(b byte) (h [32]byte) {
 	for i := range h {
 		h[i] = b
@@ -54,9 +61,9 @@ func fill(b byte) (h [32]byte) {
 var refIDs = [nBlk]refBlockID{
 	{Nil: true},
 	{Hash: fill(0xa1), PartsHash: fill(0xa2), Total: 3},
-	{Hash: fill(0xb1), PartsHash: fill(0xa2), Total: 3},
+	{Hash: lastByte(fill(0xa1), 0xb1), PartsHash: fill(0xa2), Total: 3},
 	{Hash: fill(0xa1), PartsHash: fill(0xa2), Total: 4},
-	{Hash: fill(0xa1), PartsHash: fill(0xa3), Total: 3},
+	{Hash: fill(0xa1), PartsHash: lastByte(fill(0xa2), 0xa3), Total: 3},
 	{Hash: fill(0xa1), PartsHash: fill(0xa2), Total: 3 + 256},
 	{Hash: fill(0xa1), PartsHash: fill(0xa2), Total: 3 + 255},
 	{Hash: fill(0xa1), PartsHash: fill(0xa2), Total: 3 + 65536},
@@ -114,6 +121,10 @@ func family() []vector {
 		{[]int64{2, 1, 1}, true},    // total 4
 		{[]int64{3, 2, 1}, true},    // total 6
 		{[]int64{m3, m3, m3}, true}, // total == MaxTotalVotingPower exactly (2^60-1 = 3*m3)
+		// totals above 2^53 whose two-thirds line is not representable in a float64 (a tally compared as a fraction rounds):
+		// two of three equal powers are EXACTLY 2/3; the first two of the second vector are 2/3 plus one unit
+		{[]int64{1<<58 + 40, 1<<58 + 40, 1<<58 + 40}, true},
+		{[]int64{1<<58 + 2, 1<<58 - 1, 1<<58 - 1}, true},
 		{[]int64{1, 1, 1, 1}, true}, // total 4
 		{[]int64{3, 2, 2, 2}, true}, // total 9
 		// thorough only
